@@ -177,6 +177,15 @@ def oracle_steps(cases, impl):
         if not tr:
             continue
         st, d = mon_of(tr)
+        pid_cls = "C06" if info["cls"] == "mixed" else ("C05" if info["cls"] == "multi" or (info["cls"] == "rev" and info["ps"][1] == "revolve") else None)
+        if pid_cls and in_domain(info) and any(o.startswith("r") for o in info["ops"]):
+            # the property speaks about the forward total of a full pass: valid parameters that give no complete pass (an exception at
+            # construction or at a request, before the first EndReverse) perform no optimal pass at all
+            exc = tr[0] if tr[0].startswith("CTOR EXC") else next((o for k, o, _ in (parse_line(l) for l in tr if l.startswith("N ")) if o.startswith("EXC")), None)
+            done = any(parse_line(l)[1] == "Y:ER" for l in tr if l.startswith("N "))
+            if exc and not done:
+                out.append(fail(pid_cls, info, line, "valid parameters, but no complete pass whose forward total could be optimal: %s" % exc, "no_pass"))
+                continue
         if st != "ok" or d.get("passes") != "1":
             continue
         fwd, N = int(d["fwd"]), info["N"]
